@@ -20,6 +20,7 @@ import (
 	"tunnox-core/internal/protocol/adapter"
 	"tunnox-core/internal/stream"
 	"tunnox-core/verif/vkit"
+	"tunnox-core/verif/vkit/miniserver"
 )
 
 // ---------------------------------------------------------------------------
@@ -328,4 +329,136 @@ func TestWebSocketMessageTypes(t *testing.T) {
 		}
 		vkit.Case("ws-message-types", nonBinary, fmt.Sprint(c))
 	})
+}
+
+// ---------------------------------------------------------------------------
+// TestSilentPeer — a finite stream in TIME: a peer connects through a real protocol adapter
+// (ListenFrom + accept loop + read loop + SessionManager), sends nothing or a truncated packet, stays
+// silent for a while and then hangs up. The server must notice the end of the stream: the read loop
+// returns and the connection is released (whatever read deadlines the adapter uses in between).
+
+type SilentCase struct {
+	Silent   bool   `json:"silent_peer"`
+	Proto    string `json:"proto"`     // tcp | websocket
+	Prefix   string `json:"prefix"`    // hex of what the peer sends before it goes silent
+	SilentMs int    `json:"silent_ms"` // how long it stays silent before closing
+}
+
+func runSilent(t vkit.TB, c SilentCase) (key, detail string, skipped bool) {
+	srv, err := miniserver.New(miniserver.Options{})
+	if err != nil {
+		t.Fatalf("harness: %v", err)
+	}
+	defer srv.Close()
+	var a interface {
+		ListenFrom(addr string) error
+		Close() error
+	}
+	switch c.Proto {
+	case "tcp":
+		a = adapter.NewTcpAdapter(context.Background(), srv.SM)
+	case "websocket":
+		a = adapter.NewWebSocketAdapter(context.Background(), srv.SM)
+	}
+	addr := ""
+	for try := 0; try < 20 && addr == ""; try++ {
+		l, err := net.Listen("tcp", "127.0.0.1:0")
+		if err != nil {
+			continue
+		}
+		cand := l.Addr().String()
+		l.Close()
+		if a.ListenFrom(cand) == nil {
+			addr = cand
+		}
+	}
+	if addr == "" {
+		return "", "", true
+	}
+	defer a.Close()
+	prefix := make([]byte, len(c.Prefix)/2)
+	fmt.Sscanf(c.Prefix, "%x", &prefix)
+	var closePeer func()
+	switch c.Proto {
+	case "tcp":
+		conn, err := net.DialTimeout("tcp", addr, 5*time.Second)
+		if err != nil {
+			return "", "", true
+		}
+		conn.Write(prefix)
+		closePeer = func() { conn.Close() }
+	case "websocket":
+		conn, _, err := websocket.DefaultDialer.Dial("ws://"+addr+"/_tunnox", nil)
+		if err != nil {
+			return "", "", true
+		}
+		if len(prefix) > 0 {
+			conn.WriteMessage(websocket.BinaryMessage, prefix)
+		}
+		closePeer = func() { conn.Close() }
+	}
+	// the server has the connection
+	deadline := time.Now().Add(5 * time.Second)
+	for srv.SM.GetConnectionStats().TotalConnections == 0 && time.Now().Before(deadline) {
+		time.Sleep(5 * time.Millisecond)
+	}
+	if srv.SM.GetConnectionStats().TotalConnections == 0 {
+		closePeer()
+		return "", "", true
+	}
+	time.Sleep(time.Duration(c.SilentMs) * time.Millisecond)
+	closePeer()
+	deadline = time.Now().Add(8 * time.Second)
+	for time.Now().Before(deadline) {
+		if srv.SM.GetConnectionStats().TotalConnections == 0 {
+			return "", "", false
+		}
+		time.Sleep(20 * time.Millisecond)
+	}
+	return "C05/connection-not-released-after-peer-hung-up/" + c.Proto, fmt.Sprintf("the peer sent %d bytes, stayed silent for %d ms and closed the connection; 8 s later the server still holds the connection (read loop has not noticed the end of the stream)", len(prefix), c.SilentMs), false
+}
+
+func TestSilentPeer(t *testing.T) {
+	// real time: a handful of cases per shard, run in parallel
+	silences := []int{0, 300, 11500}
+	if vkit.Thorough() {
+		silences = append(silences, 21000, 32000, 47000)
+	}
+	prefixes := []string{"", "01", "2200000010aabb"} // nothing; a lone type byte; a packet announcing 16 bytes and carrying 2
+	type job struct{ c SilentCase }
+	var jobs []SilentCase
+	idx := 0
+	for _, proto := range []string{"tcp", "websocket"} {
+		for _, ms := range silences {
+			for _, p := range prefixes {
+				idx++
+				if vkit.Mine(idx) {
+					jobs = append(jobs, SilentCase{Silent: true, Proto: proto, Prefix: p, SilentMs: ms})
+				}
+			}
+		}
+	}
+	type out struct {
+		c           SilentCase
+		key, detail string
+		skipped     bool
+	}
+	res := make(chan out, len(jobs))
+	for _, c := range jobs {
+		go func(c SilentCase) {
+			k, d, s := runSilent(t, c)
+			res <- out{c, k, d, s}
+		}(c)
+	}
+	for range jobs {
+		o := <-res
+		switch {
+		case o.skipped:
+			vkit.Skipped(1)
+		case o.key != "":
+			vkit.Violation(t, o.key, o.detail, o.c)
+		default:
+			vkit.Case("silent-peer/"+o.c.Proto, o.c.SilentMs >= 10000, fmt.Sprint(o.c))
+		}
+	}
 }
